@@ -224,6 +224,7 @@ static struct {
     long switches[P_N];
     long cancels_at_switch;
     long migrations_at_switch;
+    long proxies;
     int home_rank; /* rank of the only stream serving the chain pool (private mode) */
     volatile int any_away; /* some unit left the chain pool: units now run on several streams */
     ABT_pool P;
@@ -234,13 +235,45 @@ typedef struct sw_arg {
     ABT_thread tgt;
     int tgt_idx;
     int rc;
+    int via_proxy; /* 0: no; otherwise the stack size of the proxy */
 } sw_arg;
 
 static void chain_body(void *arg);
 
+/* A short-lived unnamed ULT on a malloc'ed stack of its own does the switch on the caller's
+ * behalf: the caller starts it with ABT_thread_create_to (and is thereby left READY in its pool,
+ * as after a yield_to); the proxy hands control to the target with the exiting flavour of the
+ * primitive.  Its descriptor and stack are one malloc'ed block that is released while the
+ * switch is in progress (large ones are unmapped at once, small ones poisoned). */
+static void proxy_exit_fn(void *arg)
+{
+    int rc = ABT_self_exit_to((ABT_thread)arg);
+    sim_fail("switch:exit-returned", "ABT_self_exit_to called by an unnamed ULT returned %d", rc);
+}
+static void proxy_resume_exit_fn(void *arg)
+{
+    int rc = ABT_self_resume_exit_to((ABT_thread)arg);
+    sim_fail("switch:exit-returned", "ABT_self_resume_exit_to called by an unnamed ULT returned %d", rc);
+}
+static int switch_via_proxy(sw_arg *a, int resume)
+{
+    ABT_thread_attr attr;
+    ABT_OK(ABT_thread_attr_create(&attr));
+    ABT_OK(ABT_thread_attr_set_stacksize(attr, (size_t)a->via_proxy));
+    B.proxies++;
+    /* (the target travels by value: the caller may be running again elsewhere before the proxy starts) */
+    int rc = ABT_thread_create_to(B.P, resume ? proxy_resume_exit_fn : proxy_exit_fn, (void *)a->tgt, attr, NULL);
+    ABT_OK(ABT_thread_attr_free(&attr));
+    return rc;
+}
+
 static void do_switch(void *p)
 {
     sw_arg *a = (sw_arg *)p;
+    if (a->via_proxy && (a->prim == P_YIELD_TO || a->prim == P_RESUME_YIELD_TO)) {
+        a->rc = switch_via_proxy(a, a->prim == P_RESUME_YIELD_TO);
+        return;
+    }
     switch (a->prim) {
         case P_YIELD_TO:
             a->rc = ABT_self_yield_to(a->tgt);
@@ -467,7 +500,9 @@ static void chain_body(void *arg)
             cancelling = 1;
             B.cancels_at_switch++;
         }
-        sw_arg a = { prim, (t >= 0 && prim != P_CREATE_TO) ? B.C[t].th : ABT_THREAD_NULL, t, ABT_SUCCESS };
+        sw_arg a = { prim, (t >= 0 && prim != P_CREATE_TO) ? B.C[t].th : ABT_THREAD_NULL, t, ABT_SUCCESS, 0 };
+        if (!migrating && !cancelling && !me->away && (prim == P_YIELD_TO || prim == P_RESUME_YIELD_TO) && sim_rand_n(SIM_RS_CHAOS, 4) == 0)
+            a.via_proxy = sim_rand_n(SIM_RS_CHAOS, 2) ? 20000 + 8 * (int)sim_rand_n(SIM_RS_CHAOS, 1000) : 200000 + 8 * (int)sim_rand_n(SIM_RS_CHAOS, 100000);
         if (prim == P_REVIVE_TO) {
             B.C[t].budget = 1 + (int)sim_rand_n(SIM_RS_CHAOS, 3);
             /* with lazy stack allocation the new incarnation gets another stack (and the old one
@@ -637,6 +672,7 @@ static void run_chain(int c02)
         SIM_CHECK(nb == 0, "pool:num-blocked-unbalanced", "num_blocked of pool %d is %d after all chain units finished", i, nb);
     }
     sim_count(c02 ? "c02.switch_with_pending_migration" : "c11.switch_with_pending_migration", (uint64_t)B.migrations_at_switch);
+    sim_count(c02 ? "c02.switches_by_unnamed_proxy" : "c11.switches_by_unnamed_proxy", (uint64_t)B.proxies);
     for (int p = 0; p < P_N; p++) {
         char nm[48];
         snprintf(nm, sizeof nm, "%s.%s", c02 ? "c02" : "c11", pn[p]);
